@@ -235,6 +235,10 @@ Inductive robs :=
 | OReadAny (off len : Z) (md : meta).      (* model only: in-segment region, decoder verdict not predicted *)
 Inductive obs :=
 | OPtr (r : robs) (after_ok : bool)
+       (again : robs)        (* the SAME pointer batch object resolved a second time *)
+       (alias : robs)        (* then another pointer batch built from the same arrow.Metadata object *)
+       (md_after : meta)     (* the pointer batch's own metadata after the first resolve *)
+| ORt2 (o : obs) (again : robs)   (* an ORt observation, and its pointer batch resolved a second time *)
 | ORt (replaced werr : bool) (ptr_rows : Z) (ptr_md : meta) (stored : bytes) (r : robs)
 | OSkip (k : option Z)
 | OHist (ws : list wobs)
@@ -353,10 +357,14 @@ Fixpoint zip_wobs (size : Z) (name : bytes) (ws : list wr) (rs : list wres) : li
 Definition run_hist (c : hist_case) : obs :=
   OHist (zip_wobs (h_size c) (h_name c) (h_writes c) (run_writes [] (h_writes c))).
 
+Definition rt_r (o : obs) : robs := match o with ORt _ _ _ _ _ r => r | _ => OPanic end.
+
 Definition model (i : input) : obs :=
   match i with
-  | IPtr c => OPtr (run_ptr c) true
-  | IRt c => run_rt c
+  (* ResolveShmBatch is a function of the segment and of the batch it is handed and leaves
+     both as they were: a repeat on the same object, or on an alias, answers the same *)
+  | IPtr c => OPtr (run_ptr c) true (run_ptr c) (run_ptr c) (p_md c)
+  | IRt c => let o := run_rt c in ORt2 o (rt_r o)
   | ISkip b => OSkip (skip_msg b)
   | IHist c => run_hist c
   end.
@@ -370,9 +378,10 @@ Definition robs_eqb (m o : robs) : bool :=
   | OReadAny _ _ _, OErrOther | OReadAny _ _ _, OErrRecovered => true    (* decoder rejected / panicked on the bytes *)
   | _, _ => false
   end.
-Definition obs_eqb (m o : obs) : bool :=
+Definition obs_eqb1 (m o : obs) : bool :=
   match m, o with
-  | OPtr r1 a1, OPtr r2 a2 => robs_eqb r1 r2 && Bool.eqb a1 a2
+  | OPtr r1 a1 g1 l1 d1, OPtr r2 a2 g2 l2 d2 =>
+      robs_eqb r1 r2 && Bool.eqb a1 a2 && robs_eqb g1 g2 && robs_eqb l1 l2 && md_eqb d1 d2
   | ORt p1 w1 n1 m1 s1 r1, ORt p2 w2 n2 m2 s2 r2 =>
       Bool.eqb p1 p2 && Bool.eqb w1 w2 && (n1 =? n2) && md_eqb m1 m2 && beqb s1 s2 && robs_eqb r1 r2
   | OSkip a, OSkip b => opt_eqb Z.eqb a b
@@ -380,6 +389,12 @@ Definition obs_eqb (m o : obs) : bool :=
       list_eqb (fun x y => match x, y with WObs p1 s1 r1, WObs p2 s2 r2 =>
                   Bool.eqb p1 p2 && beqb s1 s2 && robs_eqb r1 r2 end) a b
   | _, _ => false
+  end.
+
+Definition obs_eqb (m o : obs) : bool :=
+  match m, o with
+  | ORt2 o1 g1, ORt2 o2 g2 => obs_eqb1 o1 o2 && robs_eqb g1 g2
+  | _, _ => obs_eqb1 m o
   end.
 
 (* ---- the property, decided on one observation ----------------------------- *)
@@ -438,12 +453,19 @@ Fixpoint spec_ws (size : Z) (name : bytes) (ws : list wr) (os : list wobs) : boo
   | _, _ => false
   end.
 
-Definition spec_ok (i : input) (o : obs) : bool :=
-  match i, o with
-  | IPtr c, OPtr r after_ok =>
-      negb (size_ok (p_size c)) ||
-      (after_ok && spec_ptr (p_seg c) (p_closed c) (p_size c) (p_name c) (p_rows c) (p_md c) (eff_slots (p_schema c) (p_slots c)) r)
-  | IRt c, ORt replaced werr prows pmd stored r =>
+(* resolving again must answer exactly what the first resolve answered *)
+Definition robs_same (a b : robs) : bool :=
+  match a, b with
+  | OUnchanged, OUnchanged | OErrOff, OErrOff | OErrLen, OErrLen | OErrClosed, OErrClosed
+  | OErrRecovered, OErrRecovered | OErrOther, OErrOther | OPanic, OPanic => true
+  | OResolved a m1 e1, OResolved b m2 e2 => (a =? b) && md_eqb m1 m2 && Bool.eqb e1 e2
+  | OReadAny a l1 m1, OReadAny b l2 m2 => (a =? b) && (l1 =? l2) && md_eqb m1 m2
+  | _, _ => false
+  end.
+
+Definition spec_rt (c : rt_case) (o : obs) : bool :=
+  match o with
+  | ORt replaced werr prows pmd stored r =>
       let same := negb replaced && negb werr
                   && spec_ptr (r_seg c) false (r_size c) (r_name c) (r_rows c) (r_md c) [] r in
       negb (size_ok (r_size c)) ||
@@ -467,6 +489,22 @@ Definition spec_ok (i : input) (o : obs) : bool :=
                    | _ => false
                    end
             end)
+  | _ => false
+  end.
+
+Definition spec_ok (i : input) (o : obs) : bool :=
+  match i, o with
+  | IPtr c, OPtr r after_ok again alias md_after =>
+      negb (size_ok (p_size c)) ||
+      (after_ok
+       && spec_ptr (p_seg c) (p_closed c) (p_size c) (p_name c) (p_rows c) (p_md c) (eff_slots (p_schema c) (p_slots c)) r
+       (* the caller's pointer batch is an input: it must not be rewritten ... *)
+       && md_eqb md_after (p_md c)
+       (* ... so the same object, and any batch sharing its metadata, still resolves, to the same answer *)
+       && spec_ptr (p_seg c) (p_closed c) (p_size c) (p_name c) (p_rows c) (p_md c) (eff_slots (p_schema c) (p_slots c)) again
+       && spec_ptr (p_seg c) (p_closed c) (p_size c) (p_name c) (p_rows c) (p_md c) (eff_slots (p_schema c) (p_slots c)) alias
+       && robs_same r again && robs_same r alias)
+  | IRt c, ORt2 o again => spec_rt c o && robs_same (rt_r o) again
   | ISkip _, OSkip _ => true
   | IHist c, OHist os =>
       negb (size_ok (h_size c)) || negb (key_sound_b (h_writes c))
